@@ -55,7 +55,7 @@ func c15Codecs() []c15Codec {
 
 func init() {
 	Register(&Prop{
-		ID: "C15", Engine: "B", Quick: 3000, Thorough: 200000, Level: "exploration", Diff: true,
+		ID: "C15", Engine: "B", Quick: 3000, Thorough: 100000, Level: "exploration", Diff: true,
 		Rule: "the same case (seed) is executed by two worker binaries built from the same working tree, one with the default build tags and one with -tags purego, and their transcripts are compared line by line; a case picks one of the 35 two-variant codecs (Int8..Int256, UInt8..UInt256, Float32/64, Date, Date32, DateTime, DateTime64, Decimal32..256, Enum8/16, FixedString 8..512, IPv4, IPv6, Bool, UUID), draws rows (0, 1, few, hundreds; every value for 8- and 16-bit element types in some cases), encodes with EncodeColumn into an empty and into a non-empty buffer and with WriteColumn, decodes the reference encoding into a fresh and into a used-then-reset target, decodes a stream cut at a drawn byte, and each build is also held to the independent codec so that both being wrong the same way is not silent; a simulation-specific ingredient is only the discipline that one seed is one exactly repeatable execution in either build; distinct = distinct case digests; non-trivial = rows > 0",
 		Run:  runC15,
 	})
